@@ -1,15 +1,19 @@
 SPECIFICATION Spec
 CONSTANTS
-  NPix = {10, 20}
+  NPix = {10}
   Chunks = {1, 10}
-  Shapes <- MC_Shapes_quick
+  Shapes <- MC_Shapes_reuse
   RegSize <- MC_RegSize
+  ByteOrders <- MC_BO_big
+  Prev <- MC_Prev_none
+  MaxGen = 1
   Bug = "rows"
 INVARIANT TypeOK
 INVARIANT HeaderFirst
 INVARIANT Sequential
 INVARIANT BlockAtDeclaredPosition
 INVARIANT Tiling
+INVARIANT NothingSurvives
 INVARIANT EachBlockOnce
 INVARIANT CanonicalOrder
 INVARIANT PixBytes
